@@ -400,7 +400,7 @@ func specialLeg(run *vlib.Run) {
 		return
 	}
 	b := &built{name: "special-forms", schema: schema}
-	n := run.N(400, 12000)
+	n := run.N(400, 30000)
 	run.Each(n, 8, func(i int) {
 		caseIdx := 2000000 + i
 		r := run.Rand("special", i)
